@@ -5,6 +5,7 @@
 -/
 import PolyVerif.Props.C06Topo
 import PolyVerif.Props.C06Glb
+import PolyVerif.Model.GltfShape
 
 namespace PolyVerif
 namespace C06
@@ -171,6 +172,52 @@ theorem glb_carries_buffer (s : Scene) (w : W) (hs : SceneOK s) (h : writeScene 
   · rw [if_neg hp]
     have : w.buf = [] := List.eq_nil_of_length_eq_zero (by omega)
     simp [this, pad4]
+
+/-! ### the bytes-free shape of the document (what `c06.holds.bigtext` evaluates for payloads too large to cross the pipe) -/
+
+theorem viewsTile_of_tiles : ∀ (vs : List View) (o e : Nat), Tiles o vs e → viewsTile o vs e = true
+  | [], o, e, h => by simpa [viewsTile, Tiles] using h
+  | v :: r, o, e, h => by
+    simp only [viewsTile, Bool.and_eq_true, beq_iff_eq]
+    exact ⟨h.1, viewsTile_of_tiles r _ e h.2⟩
+
+/-- SHAPE.  For every well-formed scene the writer accepts — of any size — the buffer views tile [0, byteLength) back to
+    back, there is one view per accessor, and accessor k reads view k and fills it exactly. -/
+theorem gltf_shape_ok (s : Scene) (w : W) (hs : SceneOK s) (h : writeScene s = .ok w) : shapeOK w.doc = true := by
+  have hi := scene_inv s w hs h
+  unfold shapeOK
+  simp only [Bool.and_eq_true]
+  refine ⟨⟨?_, ?_⟩, ?_⟩
+  · have : w.doc.bufLen.getD 0 = w.buf.length := by
+      show (if w.bytesWritten > 0 then some w.bytesWritten else none).getD 0 = _
+      rw [← hi.bytes]
+      by_cases hp : w.bytesWritten > 0
+      · simp [hp]
+      · simp [hp]; omega
+    rw [this]
+    exact viewsTile_of_tiles w.views 0 _ hi.tiles
+  · show (w.accessors.length == w.views.length) = true
+    simp [hi.len]
+  · rw [List.all_eq_true]
+    intro k hk
+    have hk' : k < w.accessors.length := by
+      have : k < w.doc.accessors.length := by simpa using hk
+      exact this
+    have hkv : k < w.views.length := by rw [← hi.len]; exact hk'
+    have ha : w.doc.accessors[k]? = some w.accessors[k] := List.getElem?_eq_getElem hk'
+    have hv : w.doc.views[k]? = some w.views[k] := List.getElem?_eq_getElem hkv
+    have hown := hi.own k hk'
+    have hacc := hi.accs w.accessors[k] (List.getElem_mem hk')
+    unfold accOK at hacc
+    rw [hown, List.getElem?_eq_getElem hkv] at hacc
+    simp only [ha, hv, Bool.and_eq_true, beq_iff_eq]
+    refine ⟨hown, ?_⟩
+    split at hacc
+    · rename_i v d hv' hd
+      injection hv' with hv'; subst hv'
+      simp only [Bool.and_eq_true, beq_iff_eq] at hacc
+      exact hacc.1
+    · cases hacc
 
 end C06
 end PolyVerif
